@@ -261,7 +261,10 @@ pub fn skeletons(out: &mut String) {
         }
         // parameters by position
         let tm: Vec<Tm> = tm.into_iter().map(|t| {
-            let sub = |v: Vec<String>| v.into_iter().map(|s| match g.params.iter().position(|p| *p == s) { Some(k) => format!("${}", k), None => s }).collect::<Vec<_>>();
+            // an identifier after `.` or `::` is a member / path segment, never the parameter
+            let sub = |v: Vec<String>| { let mut prev = String::new(); v.into_iter().map(|s| {
+                let r = match g.params.iter().position(|p| *p == s) { Some(k) if prev != "." && prev != "::" => format!("${}", k), _ => s.clone() };
+                prev = s; r }).collect::<Vec<_>>() };
             match t { Tm::T(v) => Tm::T(sub(v)), Tm::Rep { leaf, nest, sep, trailing } => Tm::Rep { leaf: sub(leaf), nest: sub(nest), sep, trailing } }
         }).collect();
         let name = format!("sk_{}", lean_name(&g.key));
